@@ -47,6 +47,8 @@ pub struct Profile {
     /// end the history with this many empty transactions, a reopen and a check (crosses the
     /// 8192-entry aborted-transaction bitmap)
     pub txn_burst: u32,
+    /// issue plan-variant families at quiescent points (C06)
+    pub plan_probes: bool,
     pub guards: Vec<String>,
 }
 
@@ -80,6 +82,7 @@ impl Profile {
             ddl_rich: false,
             w_chaos: 0,
             txn_burst: 0,
+            plan_probes: false,
             guards: default_guards(),
         }
     }
@@ -111,6 +114,7 @@ pub fn default_guards() -> Vec<String> {
         "mixed_type_index_out_of_table_order",   // X3
         "alter_drop_column",                     // D17, D17b
         "alter_add_column",                      // D16
+        "join_on_column_holding_null",           // J1
         "more_than_18_inserts_per_table",        // D9, D15
         "more_than_3_relations",                 // D15, F3 (tables + indexes)
     ]
@@ -141,6 +145,9 @@ pub struct Gen {
     in_batch: bool,
     /// a VACUUM has run (D29 guard)
     vacuumed: bool,
+    /// sessions that re-inserted a unique key inside their transaction: they must commit (U3)
+    must_commit: BTreeSet<u32>,
+    batch_reused_key: bool,
     /// (table, rendered key) of rows a failed multi-row insert may have left behind
     poisoned: BTreeSet<(String, String)>,
 }
@@ -175,6 +182,8 @@ impl Gen {
             in_batch: false,
             poisoned: BTreeSet::new(),
             vacuumed: false,
+            must_commit: BTreeSet::new(),
+            batch_reused_key: false,
         }
     }
 
@@ -412,6 +421,7 @@ impl Gen {
                 let n = (if self.p.pad_text > 0 { self.rng.range(2, 6) } else if self.rng.chance(30) { self.rng.range(2, 3) } else { 1 }).min(room as u64);
                 let rows: Vec<Vec<Val>> = (0..n).map(|_| self.gen_row(ti)).collect();
                 if self.p.has("unique_key_reuse_while_session_open") && (!self.sess.is_empty() || self.in_batch) && rows.iter().any(|r| self.key_used_before(ti, r)) {
+                    // U2 / U2b / U3: a unique key is reused only by single autocommit statements while nobody is open
                     continue;
                 }
                 if self.p.has("collision_with_key_of_rolled_back_insert") && rows.iter().any(|r| self.key_of_rolled_back_insert(ti, r)) {
@@ -669,6 +679,57 @@ impl Gen {
         }
     }
 
+    /// Plan-variant families over the current committed state (C06).
+    fn gen_probes(&mut self) {
+        let tx = self.model.begin();
+        let ts = self.visible_tables(tx);
+        let mut out = vec![];
+        for ti in &ts {
+            let t = self.model.tables[*ti].clone();
+            let rows = self.model.visible_rows(tx, *ti);
+            for (ci, c) in t.cols.iter().enumerate() {
+                if c.ty == Ty::Text || !self.rng.chance(60) {
+                    continue;
+                }
+                let vals: Vec<i64> = rows.iter().filter_map(|(_, r)| if let Val::I(x) = r[ci] { Some(x) } else { None }).collect();
+                let v = if !vals.is_empty() && self.rng.chance(85) { *self.rng.pick(&vals) + *self.rng.pick(&[0i64, 0, 0, 1, -1]) } else { self.rng.range(0, 200) as i64 };
+                out.push(Probe::Point { table: t.name.clone(), col: c.name.clone(), v });
+                if !vals.is_empty() {
+                    let a = *self.rng.pick(&vals);
+                    let b = *self.rng.pick(&vals);
+                    out.push(Probe::Range { table: t.name.clone(), col: c.name.clone(), lo: a.min(b), hi: a.max(b) });
+                }
+            }
+        }
+        if ts.len() >= 2 {
+            let l = self.model.tables[ts[0]].clone();
+            let r = self.model.tables[ts[1]].clone();
+            for (a, b) in [(&l, &r), (&r, &l)] {
+                let lc: Vec<&ColDef> = a.cols.iter().filter(|c| c.ty != Ty::Text && c.name != "id").collect();
+                let rc: Vec<&ColDef> = b.cols.iter().filter(|c| c.ty != Ty::Text).collect();
+                if !lc.is_empty() && !rc.is_empty() && self.rng.chance(70) {
+                    let x = (*self.rng.pick(&lc)).clone();
+                    let y = (*self.rng.pick(&rc)).clone();
+                    if self.p.has("join_on_column_holding_null") {
+                        // J1: a NULL in the join column of either input makes the (merge) join drop matches
+                        let ai = self.model.find_table(tx, &a.name).unwrap();
+                        let bi = self.model.find_table(tx, &b.name).unwrap();
+                        let xi = a.col(&x.name).unwrap();
+                        let yi = b.col(&y.name).unwrap();
+                        if self.model.visible_rows(tx, ai).iter().any(|(_, r)| r[xi].is_null()) || self.model.visible_rows(tx, bi).iter().any(|(_, r)| r[yi].is_null()) {
+                            continue;
+                        }
+                    }
+                    out.push(Probe::Join { left: a.name.clone(), right: b.name.clone(), lcol: x.name, rcol: y.name });
+                }
+            }
+        }
+        self.model.abort(tx);
+        for p in out {
+            self.emit(Event::Probe(p));
+        }
+    }
+
     fn emit(&mut self, ev: Event) {
         // keep the generator's model in step (assuming a correct engine)
         match &ev {
@@ -766,6 +827,10 @@ impl Gen {
     }
 
     fn end_session(&mut self, k: u32) {
+        if self.must_commit.remove(&k) {
+            self.emit(Event::Commit(k));
+            return;
+        }
         let r = self.rng.below(100) as u32;
         if r < self.p.p_rollback {
             self.emit(Event::Abort(k));
@@ -839,7 +904,7 @@ impl Gen {
             if take!(self.p.w_session) {
                 // session activity
                 let open: Vec<u32> = self.sess.keys().copied().collect();
-                let want_new = open.is_empty() || ((open.len() as u32) < self.p.max_sessions && self.rng.chance(25));
+                let want_new = open.is_empty() || ((open.len() as u32) < self.p.max_sessions && self.must_commit.is_empty() && self.rng.chance(25));
                 if want_new {
                     let k = self.next_sess;
                     self.next_sess += 1;
@@ -872,6 +937,7 @@ impl Gen {
                 // generate against the model, applying as we go, then restore it
                 let saved = self.model.clone();
                 self.in_batch = true;
+                self.batch_reused_key = false;
                 let tx = self.model.begin();
                 let n = self.rng.range(2, 4);
                 let mut ss = vec![];
@@ -882,7 +948,7 @@ impl Gen {
                         ss.push(s);
                     }
                 }
-                if self.p.w_failing > 0 && self.rng.chance(25) {
+                if self.p.w_failing > 0 && !self.batch_reused_key && self.rng.chance(25) {
                     if let Some(s) = self.gen_failing(tx, false) {
                         // appended where it was validated (the model state at any earlier position differs)
                         ss.push(s);
@@ -900,6 +966,9 @@ impl Gen {
                 }
             } else if take!(self.p.w_check) {
                 self.emit(Event::Check);
+                if self.p.plan_probes {
+                    self.gen_probes();
+                }
             } else if take!(self.p.w_flush) {
                 // F4: no checkpoint while an open transaction has uncommitted changes
                 // (idle sessions may stay open across it)
